@@ -13,7 +13,6 @@ package imperatives
 
 import (
 	"strings"
-	"time"
 
 	"github.com/grafana/carbon-relay-ng/destination"
 	"github.com/grafana/carbon-relay-ng/route"
@@ -44,7 +43,7 @@ type verifC20Table struct{ table.MockTable }
 
 func (t *verifC20Table) GetSpoolDir() string { return verifC20SpoolDir }
 
-// ---- the specification table (transcribed from docs/config.md, "carbon destination") -------------------
+// ---- the option list; defaults and meanings: harness/destination/c20.go (VerifC20DestDefaults/Set) ------
 
 const (
 	c20Str = iota
@@ -64,77 +63,12 @@ var c20DestOpts = []c20OptDef{
 	{"spoolsyncevery", c20Int}, {"spoolsyncperiod", c20Int}, {"spoolsleep", c20Int}, {"unspoolsleep", c20Int},
 }
 
-// documented defaults
 func c20DestDefaults(routeKey, addr string) destination.VerifDestFieldsT {
-	w := destination.VerifDestFieldsT{
-		PeriodFlush:          1000 * time.Millisecond,  // flush: int (ms), 1000
-		PeriodReConn:         10000 * time.Millisecond, // reconn: int (ms), 10k
-		Pickle:               false,
-		Spool:                false,
-		ConnBufSize:          30000,             // 30k
-		IoBufSize:            2000000,           // 2M
-		SpoolBufSize:         10000,             // 10k
-		SpoolMaxBytesPerFile: 200 * 1024 * 1024, // 200MiB
-		SpoolSyncEvery:       10000,             // 10k
-		SpoolSyncPeriod:      1000 * time.Millisecond,
-		SpoolSleep:           500 * time.Microsecond,
-		UnspoolSleep:         10 * time.Microsecond,
-		SpoolDir:             verifC20SpoolDir,
-		RouteName:            routeKey,
-	}
-	// addr is host:port or host:port:instance (consistent hashing)
-	parts := strings.Split(addr, ":")
-	if len(parts) == 3 {
-		w.Addr, w.Instance = parts[0]+":"+parts[1], parts[2]
-	} else {
-		w.Addr = addr
-	}
-	w.Key = routeKey + "_" + strings.NewReplacer(".", "_", ":", "_", "/", "").Replace(addr)
-	return w
+	return destination.VerifC20DestDefaults(routeKey, addr, verifC20SpoolDir)
 }
 
-// documented meaning of one option occurrence
 func c20DestSet(w *destination.VerifDestFieldsT, opt string, s string, n int, b bool) {
-	switch opt {
-	case "prefix":
-		w.Prefix = s
-	case "notPrefix":
-		w.NotPrefix = s
-	case "sub":
-		w.Sub = s
-	case "notSub":
-		w.NotSub = s
-	case "regex":
-		w.Regex = s
-	case "notRegex":
-		w.NotRegex = s
-	case "flush":
-		w.PeriodFlush = time.Duration(n) * time.Millisecond
-	case "reconn":
-		w.PeriodReConn = time.Duration(n) * time.Millisecond
-	case "pickle":
-		w.Pickle = b
-	case "spool":
-		w.Spool = b
-	case "connbuf":
-		w.ConnBufSize = n
-	case "iobuf":
-		w.IoBufSize = n
-	case "spoolbuf":
-		w.SpoolBufSize = n
-	case "spoolmaxbytesperfile":
-		w.SpoolMaxBytesPerFile = int64(n)
-	case "spoolsyncevery":
-		w.SpoolSyncEvery = int64(n)
-	case "spoolsyncperiod":
-		w.SpoolSyncPeriod = time.Duration(n) * time.Millisecond
-	case "spoolsleep":
-		w.SpoolSleep = time.Duration(n) * time.Microsecond
-	case "unspoolsleep":
-		w.UnspoolSleep = time.Duration(n) * time.Microsecond
-	default:
-		panic("unknown option " + opt)
-	}
+	destination.VerifC20DestSet(w, opt, s, n, b)
 }
 
 func c20DestCompare(tag string, g, w destination.VerifDestFieldsT) {
@@ -320,10 +254,14 @@ func VerifC20DestNoMatcher() {
 func VerifC20AddRoute() {
 	types := []string{"sendAllMatch", "sendFirstMatch"}
 	routeOpts := []string{"", " prefix=rp.", " sub=rs notRegex=rn$", " regex=^rr notPrefix=np notSub=ns"}
-	ro := verifChoice("routeopts", len(routeOpts))
-	typ := types[ro%2]
+	var ro int
+	var typ string
 	if verifParam("full") == "1" {
+		ro = verifChoice("routeopts", len(routeOpts))
 		typ = types[verifChoice("type", len(types))]
+	} else {
+		ro = 3 * verifChoice("routeopts", 2)
+		typ = types[ro%2]
 	}
 	a0, a1 := "graphite.prod:2003", "graphite.staging:2004"
 	w0, w1 := c20DestDefaults("rk", a0), c20DestDefaults("rk", a1)
